@@ -68,8 +68,8 @@ def run(ctx):
             where(f, c), "commits of a stale member are not fenced; consumers restart from the wrong position")
 
     # ---- R2 shut down before (re)join
-    r = ctx.rule("R2", "the prepare hook is awaited on every path before the join request; it shuts every consumer down; so does stop() before it leaves",
-                 4, "B")
+    r = ctx.rule("R2", "the prepare hook is awaited on every path before the join request; it shuts every consumer down; so does stop() before it leaves, and sweeps after",
+                 5, "B")
     cf = ctx.cfg(jas)
     joins = [n for n in cf.nodes if any(call_name(x) == "send_join_group_request" for x in n.calls())]
     need(len(joins) == 1, "join request call not found once in _join_and_sync")
@@ -114,6 +114,18 @@ def run(ctx):
     r.check(gstop.cls is gci and bool(sdw) and bool(leave) and all(cgs.dominates(sdw, n.id) for n in leave), "%s#consumers-shut-down-before-leave" % gstop.qname,
             "ConsumerGroup.stop() can reach Coordinator.stop() (which sends LeaveGroup) without having awaited shutdown_consumers()",
             where(gstop, gstop.node), "LeaveGroup goes out while the generation's consumers still run; their commit follows the leave")
+
+    # ... and the table is emptied once more after the coordinator part has stopped: until `_stopping` is raised (by
+    # Coordinator.stop) a heartbeat answered REBALANCE_IN_PROGRESS makes the member rejoin, and the completed join starts
+    # the consumers of the new generation while stop() is still waiting for the old ones
+    stc_ = ctx.func(GROUP + ".stop_consumers")
+    sweep = [n for n in cgs.nodes if any(prog.resolve_call(gstop, x) in (stc_, sdc) for x in n.calls()) and leave and
+             all(cgs.dominates([lv_.id], n.id) for lv_ in leave)]
+    r.check(bool(sweep) and not cgs.normal_exits_from(leave[0].id if leave else cgs.entry.id, avoid=[n.id for n in sweep]),
+            "%s#no-consumer-left-after-the-fence" % gstop.qname,
+            "ConsumerGroup.stop() does not stop the consumers again after Coordinator.stop() has raised the fence and left the group",
+            where(gstop, gstop.node), "a rebalance completes while stop() waits for the old consumers' commits: the new generation's "
+            "consumers keep running after stop() reported [stopped]")
 
     # ---- R3 eviction stops consumers
     r = ctx.rule("R3", "illegal generation / unknown member / invalid group / timeout: consumers stopped before rejoin; "
